@@ -50,6 +50,7 @@ Definition srun (s : stream) (ops : list sop) : stream := fold_left (fun st op =
 Lemma readlist_valid s ts : valid s -> valid (fst (readlist s ts)).
 Proof.
   unfold valid, readlist, read_dtype_list. intros [H0 H1].
+  destruct (check_tokens ts); [|cbn; lia]. cbn [bind].
   destruct (scan_tokens ts false 0) as [after|] eqn:Es; [|cbn; lia]. cbn [bind].
   destruct (read_list_loop (sbits s) ts (spos s) after) as [[vs p]|] eqn:El; [|cbn; lia].
   cbn [fst spos sbits]. apply scan_tokens_ok in Es.
